@@ -73,18 +73,101 @@ def allDigits (s : List Char) : Bool := s.all Char.isDigit
 
 def natOfDigits (s : List Char) : Nat := s.foldl (fun n c => 10 * n + digitVal c) 0
 
-/-- `strconv.ParseInt(s, 10, 64)` / `strconv.Atoi` on a 64-bit platform -/
-def parseInt (s : String) : Option Int :=
+/-- `strconv.ParseInt(s, 10, 64)` / `strconv.Atoi` on a 64-bit platform — the casters *before* the repair
+    "casts read numbers like YAML does" (kept for the Neg witness and as the last resort of the new casters) -/
+def parseIntDecimal (s : List Char) : Option Int :=
   let go (neg : Bool) (ds : List Char) : Option Int :=
     if ds.isEmpty || !allDigits ds then none
     else
       let n := natOfDigits ds
       if neg then (if n ≤ 9223372036854775808 then some (-(n : Int)) else none)
       else (if n ≤ 9223372036854775807 then some (n : Int) else none)
-  match s.toList with
+  match s with
   | '+' :: ds => go false ds
   | '-' :: ds => go true ds
   | ds => go false ds
+
+/-- value of a digit in bases up to 36 (`strconv`: `0-9`, `a-z`, `A-Z`) -/
+def digitOf (c : Char) : Option Nat :=
+  if c.isDigit then some (c.toNat - '0'.toNat)
+  else if c.isLower then some (c.toNat - 'a'.toNat + 10)
+  else if c.isUpper then some (c.toNat - 'A'.toNat + 10)
+  else none
+
+/-- the digit loop of `strconv.ParseUint` for an explicit base (no underscores); `none` = syntax error -/
+def digitsVal (base : Nat) : List Char → Nat → Option Nat
+  | [], n => some n
+  | c :: cs, n =>
+    match digitOf c with
+    | some d => if d < base then digitsVal base cs (base * n + d) else none
+    | none => none
+
+/-- `strconv.ParseUint(s, base, 64)` for base 2/8/10/16: non-empty, all digits below the base, below 2^64 -/
+def parseUintBase (base : Nat) (s : List Char) : Option Nat :=
+  if s.isEmpty then none else
+  match digitsVal base s 0 with
+  | some n => if n < 18446744073709551616 then some n else none
+  | none => none
+
+/-- `strconv.ParseUint(s, 0, 64)` on a text without underscores: `0b`/`0o`/`0x` (either case, at least one more
+    character) select the base, any other leading `0` means octal — and `"0"` itself is 0 -/
+def parseUint0 (s : List Char) : Option Nat :=
+  match s with
+  | [] => none
+  | '0' :: c :: d :: r =>
+    if c.toLower = 'b' then parseUintBase 2 (d :: r)
+    else if c.toLower = 'o' then parseUintBase 8 (d :: r)
+    else if c.toLower = 'x' then parseUintBase 16 (d :: r)
+    else match digitsVal 8 (c :: d :: r) 0 with
+      | some n => if n < 18446744073709551616 then some n else none
+      | none => none
+  | '0' :: r =>
+    match digitsVal 8 r 0 with
+    | some n => some n
+    | none => none
+  | _ => parseUintBase 10 s
+
+/-- the sign and range handling of `strconv.ParseInt(_, _, 64)` around an unsigned parser -/
+def signed (pu : List Char → Option Nat) (s : List Char) : Option Int :=
+  let fin (neg : Bool) (r : Option Nat) : Option Int :=
+    match r with
+    | none => none
+    | some n =>
+      if neg then (if n ≤ 9223372036854775808 then some (-(n : Int)) else none)
+      else (if n ≤ 9223372036854775807 then some (n : Int) else none)
+  match s with
+  | [] => none
+  | '+' :: ds => fin false (pu ds)
+  | '-' :: ds => fin true (pu ds)
+  | ds => fin false (pu ds)
+
+/-- `strconv.ParseInt(s, 0, 64)` -/
+def parseInt0 (s : List Char) : Option Int := signed parseUint0 s
+/-- `strconv.ParseInt(s, base, 64)` -/
+def parseIntBase (base : Nat) (s : List Char) : Option Int := signed (parseUintBase base) s
+
+def stripUnderscores (s : List Char) : List Char := s.filter (· != '_')
+
+/-- how yaml.v3's `resolve` reads an underscore-free text as `!!int` (int64 range): `ParseInt(_, 0, 64)`, else —
+    its quirk — a sign *after* a lower-case `0b` / `0o` prefix.  (Larger values become `uint64`, texts matching
+    the decimal float syntax become `!!float`: both are `none` here; neither overlaps the prefix branches.) -/
+def yamlIntCore (plain : List Char) : Option Int :=
+  match parseInt0 plain with
+  | some i => some i
+  | none =>
+    match plain with
+    | '0' :: 'b' :: r => parseIntBase 2 r
+    | '-' :: '0' :: 'b' :: r => parseIntBase 2 ('-' :: r)
+    | '0' :: 'o' :: r => parseIntBase 8 r
+    | '-' :: '0' :: 'o' :: r => parseIntBase 8 ('-' :: r)
+    | _ => none
+
+/-- `parseYAMLInt` of loader/interpolate.go = `toInt` / `toInt64` (on a 64-bit platform): read like YAML, and a
+    text that is not valid octal (`08`) as decimal -/
+def parseInt (s : String) : Option Int :=
+  match yamlIntCore (stripUnderscores s.toList) with
+  | some i => some i
+  | none => parseIntDecimal (stripUnderscores s.toList)
 
 /-- `toBoolean`: `strings.ToLower` only matters on ASCII here (no other rune lower-cases to a letter of
     `true false y yes on n no off`) -/
